@@ -297,7 +297,15 @@ impl Property for C10 {
                 for gi in 0..low.goals.len() {
                     if let (Some(a), Some(b)) = (&fresh_all[1][gi], &fresh_all[2][gi]) {
                         if a != b {
-                            out.fail(format!("rec:cache-on-off-differ:{}", diff_class(a, b)), format!("recursive solver, goal `{}`: cache on `{}` vs cache off `{}`\n{}", low.goals[gi].as_ref().unwrap().text, a, b, low.text));
+                            // unbounded answer sets: where the search is cut off depends on what is cached (recorded finding)
+                            let unbounded = !(goal_is_closed(&case.pg.goals[gi]) || fin);
+                            let mut dc = if unbounded && (a.starts_with("Ambiguous") || b.starts_with("Ambiguous")) { "precision-only:unbounded-answers".to_string() } else { diff_class(a, b) };
+                            // hypotheses over traits with parameters: the recorded recursive-solver finding (elaboration introduces an existential)
+                            let has_hyp = case.pg.goals[gi].prefix.iter().any(|p| matches!(p, crate::model::Prefix::If(_)));
+                            if has_hyp && env_existential(&case.pg.program) && !dc.contains("unbounded") {
+                                dc.push_str(":env-with-trait-params");
+                            }
+                            out.fail(format!("rec:cache-on-off-differ:{}", dc), format!("recursive solver, goal `{}`: cache on `{}` vs cache off `{}`\n{}", low.goals[gi].as_ref().unwrap().text, a, b, low.text));
                         }
                     }
                 }
